@@ -151,8 +151,10 @@ impl<'a> TryFrom<Token<'a>> for bool {
     fn try_from(value: Token<'a>) -> Result<bool, Self::Error> {
         match value {
             Token::DecimalNumericProgramData(_) => {
-                // Round numeric to integer, non-zero equals true
-                Ok(<isize>::try_from(value)? != 0)
+                // Round numeric to integer, non-zero equals true.
+                // Decided on the float so that large literals do not overflow an integer.
+                let value = <f64>::try_from(value)?;
+                Ok(value >= 0.5 || value <= -0.5)
             }
             Token::CharacterProgramData(s) => {
                 if s.eq_ignore_ascii_case(b"ON") {
